@@ -14,6 +14,8 @@ RULE = ("random op sequences (2-16 / 2-30 ops) over three registers - a NoneOneO
         "sent/recoverable/unrecoverable results of length <= 3 on the cancel side x the open side (1600 pairs) for SendCancelsAndOpensOutput / GenerateAlgoOrdersOutput; every pattern of "
         "healthy / dead exchanges for <= 2 cancels x <= 3 opens (520 pairs) through one real Engine::process each, once as the requests of a ClosePositions command and once as the "
         "algo requests of an account-item tick. "
+        "Plus a separately seeded input-domain family (one `d` case per eight random ones): items over the whole i64 domain (negative, i64::MIN / MAX; shifts that leave i64 are bad-op on both sides), lists of 5-12 items, "
+        "`eng` ops with 4-6 requests per list. "
         "Distinct by SHA-1 of the op lines; non-trivial when the implementation's observation block changes at least once")
 ASSUMPTIONS = [
     "a Rust iterator argument is a finite list; Vec::push / Vec::extend are append; elements are i64 (the types are generic, the code never inspects an element except through ==)",
